@@ -159,6 +159,34 @@ pub fn rec_lists(a: &Args, out: &mut Out) {
                     let (o, _, _) = decode_obs(&g, num, &path, is_str);
                     out.emit(json!({"ev": "ListHostile", "number": num, "path": path_s, "how": "count-above-cap", "frame": bytes_json(&g), "out": o}));
                 }
+                // arbitrary element content (random bits, zero bytes) under an admissible count: still n elements
+                if let (Some(eoff), Some(ebits)) = (l["elems_off"].as_u64(), l["elem_bits"].as_u64()) {
+                    let (eoff, ebits) = (eoff as usize, ebits as usize);
+                    for style in 0..6u8 {
+                        let mut g = f.clone();
+                        for e in 0..cap {
+                            for b in 0..ebits {
+                                let pos = 24 + eoff + e * ebits + b;
+                                let v: u8 = match style {
+                                    0 => 0,
+                                    1 => 1,
+                                    2 => r.gen_range(0..2),
+                                    3 => if e % 2 == 0 { 0 } else { r.gen_range(0..2) },
+                                    4 => if e == cap - 1 { 0 } else { (g[pos / 8] >> (7 - pos % 8)) & 1 },
+                                    _ => if e == 0 { 0 } else { (g[pos / 8] >> (7 - pos % 8)) & 1 },
+                                };
+                                if v == 1 {
+                                    g[pos / 8] |= 0x80 >> (pos % 8);
+                                } else {
+                                    g[pos / 8] &= !(0x80 >> (pos % 8));
+                                }
+                            }
+                        }
+                        refresh_crc(&mut g);
+                        let (o, dec_n, _) = decode_obs(&g, num, &path, is_str);
+                        out.emit(json!({"ev": "ListPatched", "number": num, "path": path_s, "frame": bytes_json(&g), "out": o, "dec_n": dec_n}));
+                    }
+                }
                 // a count above the capacity WITH a body that really holds that many elements (and the fields after the list)
                 if let (Some(eoff), Some(ebits)) = (l["elems_off"].as_u64(), l["elem_bits"].as_u64()) {
                     let (eoff, ebits) = (eoff as usize, ebits as usize);
